@@ -70,6 +70,12 @@ def run(pid, m, ids):
     rc, o = sh(f'git -C /repo apply {d}/patch.diff')
     if rc != 0: print('apply failed', o); sys.exit(2)
     results = {}
+    # a run against a mutated tree must not leave its evidence behind: evidence files describe the unchanged tree
+    saved = {}
+    for cid in ids:
+        ev = f'/verif/evidence/{cid}.json'
+        if os.path.exists(ev):
+            saved[ev] = open(ev).read()
     try:
         for cid in ids:
             t0 = time.time()
@@ -86,6 +92,8 @@ def run(pid, m, ids):
     finally:
         sh('git -C /repo checkout -- .')
         sh('git -C /repo clean -fdq -- . ')
+        for ev, body in saved.items():
+            open(ev, 'w').write(body)
     prev = {}
     if os.path.exists(f'{d}/checks.json'): prev = json.load(open(f'{d}/checks.json'))
     prev.update(results)
